@@ -5,15 +5,14 @@ from .. import common, corpus, irrules
 def run(tier):
     ck = common.Check('C04', tier)
     from . import parts
-    res_all = parts.run_parts(ck, tier, ir_parts=('ir_alloc', 'ir_steal'),
-                              rule_filter=lambda p, x: p == 'ir_alloc' or x.rule == 'R04.6')
+    res_all = parts.run_parts(ck, tier, ir_parts=('ir_alloc', 'ir_steal', 'ir_growth'),
+                              rule_filter=lambda p, x: p == 'ir_alloc' or x.rule in ('R04.6', 'R04.3', 'R10.1'))
     res = res_all.get('ir_alloc', [])
     sites = sum(r['res']['sites'] for r in res)
     funs = sum(r['res']['functions'] for r in res)
     ck.floor('allocation sites (function x site, summed over TUs)', sites, 200 if tier == 'quick' else 2000)
     ck.extra['allocation_sites'] = sites
     ck.extra['functions_walked'] = funs
-    ck.note('R04.3 (no allocation on the in-place edge) is decided under C10 (R10.1)')
     irrules.run_canaries(ck, {'ir_alloc': [('R04.1', 'canary_leak_on_throw'), ('R04.5', 'canary_free_inline')]},
                          silent=('canary_ok_alloc',))
     ck.assumptions += ['Allocator requirements: deallocate/copy/== do not throw',
